@@ -40,8 +40,10 @@ Arguments Err {A} e.
 Arguments Panic {A}.
 Arguments Blocks {A}.
 
-(** what H.UnmarshalBinary does with a body *)
-Inductive dres := DErr | DPanic | DHdr (h : hdr).
+(** what H.UnmarshalBinary - and, for a body that decodes, H.Validate - does with a body:
+    [DHdr h]: decodes to [h], Validate returns nil or an error ([h_ok h]);
+    [DValPanic]: decodes, and Validate() on the decoded header PANICS (added last) *)
+Inductive dres := DErr | DPanic | DHdr (h : hdr) | DValPanic.
 
 (** p2p_pb.StatusCode is an int32: INVALID = 0, OK = 1, NOT_FOUND = 2 *)
 Definition status_OK : Z := 1.
@@ -100,6 +102,7 @@ Section Request.
       | None =>
         match decode (f_body f) with
         | DPanic => Panic
+        | DValPanic => Panic          (* hdr.Validate() panics: no recover in processResponses either *)
         | DErr => Err EDecode
         | DHdr h =>
           if h_ok h then
@@ -122,8 +125,8 @@ Section Request.
   Definition validate_chain (want have : N) : bool :=
     (want =? 0) || (fold want =? fold have).
 
-  (** Exchange.request; its deferred recover() turns a panic of the codec
-      (inside processResponses) into an error *)
+  (** Exchange.request; its deferred recover() turns a panic of the codec or of
+      Validate (inside processResponses) into an error *)
   Definition request (want : N) (amount : nat) (s : stream) : res (list hdr) :=
     match s with
     | SFail => Err ETransport
